@@ -329,6 +329,46 @@ func main() {
 		layout.ServeHTTP(httptest.NewRecorder(), httptest.NewRequest("GET", "/page", nil))
 		return [2]context.Context{got, templ.InitializeContext(context.Background())}
 	}})
+	// the document a client gets when the page fails: the buffered handler discards what the page had written and serves
+	// the error handler's component, rendered with the request's context. That document is checked like any other:
+	// every definition it uses before the use. Known finding: the failed page's definitions count as emitted.
+	{
+		errPageChecks := 0
+		boom := templ.ComponentFunc(func(ctx context.Context, w io.Writer) error { return fmt.Errorf("boom") })
+		for _, pageOp := range base {
+			for _, errOp := range base {
+				for _, initialised := range []string{"templ.InitializeContext", "CSS middleware"} {
+					pageOp, errOp := pageOp, errOp
+					page := templ.Join(pageOp.mk(), boom)
+					h := templ.Handler(page, templ.WithErrorHandler(func(r *http.Request, err error) http.Handler {
+						return templ.Handler(errOp.mk())
+					}))
+					var handler http.Handler = http.HandlerFunc(func(w http.ResponseWriter, r *http.Request) {
+						h.ServeHTTP(w, r.WithContext(templ.InitializeContext(r.Context())))
+					})
+					if initialised == "CSS middleware" {
+						handler = templ.NewCSSMiddleware(h)
+					}
+					rec := httptest.NewRecorder()
+					handler.ServeHTTP(rec, httptest.NewRequest("GET", "/page", nil))
+					errPageChecks++
+					chk := errOp
+					if pr := checkFresh(chk, rec.Body.String()); pr != "" {
+						key := "error-page:" + strings.SplitN(errOp.name, "(", 2)[0]
+						// defect-aware: the body is what the error page renders in a context in which the page's part has
+						// already been rendered (its definitions count as emitted although they were thrown away)
+						ctx := templ.InitializeContext(context.Background())
+						render(ctx, pageOp.mk())
+						if rec.Body.String() == render(ctx, errOp.mk()) {
+							key = "error-page-rendered-in-the-context-of-the-failed-page"
+						}
+						run.Violation(key, fmt.Sprintf("page [%s, then an error] behind %s, error handler renders [%s]: the client gets %s: %s", pageOp.name, initialised, errOp.name, vlib.Quote(rec.Body.String()), pr), map[string]any{"page": pageOp.name, "error_page": errOp.name, "body": rec.Body.String()})
+					}
+				}
+			}
+		}
+		run.Cov["error_page_documents"] = errPageChecks
+	}
 	// many handles, scripts and classes in one process: the 1st, 64th, 65th, 256th ... handle created must behave
 	// like the second (an id- or bit-indexed table has its boundaries there). Each of 300 handles is used three times
 	// in each of two contexts: the body appears exactly once per context.
